@@ -326,11 +326,56 @@ def random_histories(task: Tuple, col: common.Collector) -> None:
     col.notes["model_checks"] = monitors.COUNTS["c16_checks"]
 
 
+def start_repo_suite() -> Any:
+    """The repository's own tests, run with the icontract class invariant attached (pytest
+    plugin vf.pytest_plugin): NamedItemList is used by every loaded database."""
+    import os
+    import subprocess
+    import sys
+    env = dict(os.environ, ODXTOOLS_VERIF="1",
+               PYTHONPATH=os.pathsep.join([common.REPO, common.ROOT, common.DEPS]))
+    tests = os.path.join(common.REPO, "tests")
+    if not os.path.isdir(tests):
+        return None
+    return subprocess.Popen([sys.executable, "-m", "pytest", "-q", "-p", "no:cacheprovider", "-p",
+                             "vf.pytest_plugin", tests], cwd=common.REPO, env=env,
+                            stdout=subprocess.PIPE, stderr=subprocess.STDOUT, text=True)
+
+
+def finish_repo_suite(p: Any, col: common.Collector) -> None:
+    import re
+    if p is None:
+        col.notes["repo_suite_with_invariant"] = "tests directory not present"
+        return
+    try:
+        out, _ = p.communicate(timeout=900)
+    except Exception:
+        p.kill()
+        col.notes["repo_suite_with_invariant"] = "timed out"
+        return
+    m = re.search(r"invariant evaluations=(\d+) failures=(\d+)", out)
+    if not m:
+        col.notes["repo_suite_with_invariant"] = "plugin summary not found"
+        return
+    evals, fails = int(m.group(1)), int(m.group(2))
+    col.notes["repo_suite_invariant_evaluations"] = evals
+    col.ev(evals)
+    if fails:
+        lines = [l.strip() for l in out.splitlines() if "invariant broken" in l][:5]
+        clause = lines[0].split("(")[1].split(",")[0].strip("'\" ") if lines else "unknown"
+        col.violation((clause, "inside-repo-test-suite"),
+                      {"problem": "class invariant fired while the repository's tests ran",
+                       "failures": fails, "first": lines, "mode": "repo-suite",
+                       "alphabet": [], "history": []})
+
+
 def run(tier: str, col: common.Collector) -> None:
+    suite = start_repo_suite()
     depth, nalpha = (4, 8) if tier == "quick" else (5, 10)
     explore_levels(depth, nalpha, col)
     nrand, length = (6, 100) if tier == "quick" else (120, 200)
     common.pmap(random_histories, [(w, nrand, length) for w in range(common.NCPU)], col)
+    finish_repo_suite(suite, col)
     col.notes["exhaustive"] = True
     col.notes["depth"] = depth
     col.notes["alphabet_size"] = nalpha
@@ -344,7 +389,7 @@ def replay(w: Dict[str, Any], col: common.Collector) -> None:
     from odxtools.nameditemlist import NamedItemList
     monitors.install_nil_invariant(raise_on_failure=True)
     alpha = [Item(sn, 0, tag) for sn, tag in w["alphabet"]]
-    if w.get("mode") == "random":
+    if w.get("mode") in ("random", "repo-suite"):
         col.fail_inconclusive("random-mode witnesses are replayed by re-running with the same seed")
         return
     hist = [tuple(o) for o in w["history"]]
